@@ -147,6 +147,18 @@ impl Prop for P04 {
     }
 
     fn gen(&mut self, rng: &mut Rng, idx: usize, tier: &str) -> Value {
+        if idx % 23 == 5 {
+            // one argument at the system's limit for a single string (131072 bytes with its terminator): the longest
+            // one that fits is delivered, one byte more ends the run with status 1 - it is not handed to exec to fail there
+            let long = *rng.pick(&[131070usize, 131071, 131071, 131072, 131072, 131073, 150000]);
+            let mut args: Vec<Value> = (0..rng.below(4)).map(|_| json!({"len": 1 + rng.below(5), "hard": rng.chance(1, 2)})).collect();
+            args.push(json!({"len": long, "hard": true}));
+            for _ in 0..rng.below(3) {
+                args.push(json!({"len": 1 + rng.below(5), "hard": rng.chance(1, 2)}));
+            }
+            return json!({"args": args, "n": *rng.pick(&[0u64, 0, 1, 2]), "L": 0, "s": 0, "cmd": 100, "x": false, "r": false,
+                          "ninit": rng.below(2), "sepstyle": 0, "mb": false, "argmax": 131072});
+        }
         let big = idx % 17 == 3;
         let nargs = if big { 200 + rng.below(if tier == "thorough" { 3000 } else { 800 }) } else { rng.below(40) };
         let maxlen = *rng.pick(&[1usize, 2, 3, 8, 20, 60]);
